@@ -375,6 +375,11 @@ static void report_task(struct uftrace_data *handle, struct uftrace_opts *opts)
 
 	while (read_rstack(handle, &task) >= 0 && !uftrace_done) {
 		rstack = task->rstack;
+
+		/* calls still open at the end last until the task's last record (as in report_functions) */
+		if (rstack->type != UFTRACE_LOST)
+			task->timestamp_last = rstack->time;
+
 		if (rstack->type == UFTRACE_ENTRY || rstack->type == UFTRACE_LOST)
 			continue;
 
